@@ -7,7 +7,7 @@
 (* design-level defects, and it is a vacuity guard for P (S is known to be faithful by C14Fid).           *)
 EXTENDS DeviceEnhanced
 
-CONSTANTS Alphabet, MaxLen, Arbs
+CONSTANTS Alphabet, MaxLen, Arbs, Distinct   \* Distinct: a plain byte value is never pending twice (unambiguous witnesses)
 
 VARIABLES d, t, cont, mon, nb, lastIn
 vars == <<d, t, cont, mon, nb, lastIn>>
@@ -21,7 +21,9 @@ Init == /\ cont = FALSE /\ nb = 0
 
 Apply(s, tok) == /\ d' = s.d /\ t' = s.t /\ mon' = MonStep(mon, s.ev) /\ lastIn' = tok
 
+InSeq(x, q) == \E i \in 1..Len(q) : q[i] = x
 Arrive(b) == /\ t.valid /\ nb < MaxLen
+             /\ ~(Distinct /\ b < 128 /\ (InSeq(b, t.buf) \/ InSeq(b, t.wire)))
              /\ d' = d /\ t' = [t EXCEPT !.wire = Append(@, b)] /\ cont' = cont /\ nb' = nb + 1
              /\ mon' = MonStep(mon, <<<<"arr", b>>>>) /\ lastIn' = <<"A", b>>
 Recv  == LET s == EnhRecvF(d, t, IF cont THEN 0 ELSE 10) IN Apply(s, "R") /\ cont' = s.cont /\ nb' = nb
